@@ -68,6 +68,52 @@ def pair(ctx, name, ts, mu, Ne, space, seed):
                       f"{ts.num_nodes}", subcheck="pair")
 
 
+def real_messages(ctx, name, ts, space):
+    """On a real multi-tree input: exactly the edges whose parent is the oldest root are left out of the
+    outside pass, every other edge into a non-sample child is used exactly once (added after seed C38-a:
+    a child may have several edges to the oldest root)."""
+    from collections import Counter
+    fit = bp.order_fit(ts, space, G=3)
+    used = []
+    orig = fit.lik.get_outside
+
+    def get_outside(arr, edge):
+        used.append(int(edge.id))
+        return orig(arr, edge)
+
+    fit.lik.get_outside = get_outside
+    roots = sorted(set(ts.edges_parent.tolist()) - set(ts.edges_child.tolist()))
+    if not roots:
+        return
+    tmax = max(ts.nodes_time[r] for r in roots)
+    oldest = [r for r in roots if ts.nodes_time[r] == tmax]
+    if len(oldest) != 1:
+        return
+    oldest = oldest[0]
+    try:
+        with np.errstate(all="ignore"):
+            fit.inside_pass()
+            fit.outside_pass(standardize=True, ignore_oldest_root=True)
+    except Exception as ex:  # noqa: BLE001
+        ctx.count("real_messages_raised_" + type(ex).__name__)
+        return
+    samples = set(ts.samples().tolist())
+    want = Counter(e.id for e in ts.edges() if e.child not in samples and e.parent != oldest)
+    ctx.evaluations += 1
+    ctx.traces += 1
+    multi = Counter((e.parent, e.child) for e in ts.edges() if e.parent == oldest)
+    if any(v > 1 for v in multi.values()):
+        ctx.nontriv(("real-messages", name, space))
+    if Counter(used) != want:
+        extra = sorted((Counter(used) - want).elements())
+        missing = sorted((want - Counter(used)).elements())
+        sig = (SIG + "/messages-real") if oldest != ts.num_nodes - 1 else "C38/outside_pass/messages-from-oldest-root-used"
+        ctx.violation(sig, {"kind": "real-messages", "name": name, "ts": bp.ts_instance(ts), "space": space},
+                      f"{name}: oldest root {oldest} (highest id: {oldest == ts.num_nodes - 1}); edges used although "
+                      f"their parent is the oldest root: {[(e, int(ts.edges_parent[e]), int(ts.edges_child[e])) for e in extra][:6]}; "
+                      f"edges not used: {missing[:6]}", subcheck="real-messages")
+
+
 def run(ctx):
     harness.setup_repo_env(ctx.work)
     q = ctx.quick
@@ -131,12 +177,17 @@ def run(ctx):
         for s in range(1 if q else 3):
             pair(ctx, inp.name, inp.ts, inp.mu, inp.Ne, bp.SPACES[(k + s) % 2], ctx.seed + 101 * s + k)
     bp.tick(ctx, "pairs")
+    for k, inp in enumerate(inputs + bp.corpus(ctx, 6 if q else 30, 0, small=False)):
+        real_messages(ctx, inp.name, inp.ts, bp.SPACES[k % 2])
+    bp.tick(ctx, "real_messages")
 
 
 def replay(ctx, body):
     harness.setup_repo_env(ctx.work)
     inst = body["instance"]
-    if inst.get("kind") == "pair":
+    if inst.get("kind") == "real-messages":
+        real_messages(ctx, inst["name"], bp.ts_from_instance(inst["ts"]), inst["space"])
+    elif inst.get("kind") == "pair":
         pair(ctx, inst["name"], bp.ts_from_instance(inst["ts"]), inst["mu"], inst["Ne"], inst["space"], inst["seed"])
     elif "skipped" in inst:
         for space in bp.SPACES:
